@@ -80,9 +80,13 @@ def make(Model, spec, scripts, tol):
     return m
 
 
+CALLER_FILTERS = ['ignore', 'ignore', 'error', 'always', 'default', 'error']
+CALLER_FILTER = ['ignore']     # the caller's own process-wide warnings action while the call runs (none of the solver's business)
+
+
 def call(f, *a, **k):
     with warnings.catch_warnings():
-        warnings.simplefilter('ignore')
+        warnings.simplefilter(CALLER_FILTER[0])
         try:
             return ('ret', f(*a, **k))
         except BaseException as e:  # noqa: BLE001
@@ -91,6 +95,15 @@ def call(f, *a, **k):
 
 def twin(ctx, Model, spec, scripts, opts, a, b, a_label, b_label, case):
     """A: solve(start, end); B: loop over the reference period list."""
+    from .common import h64
+    CALLER_FILTER[0] = CALLER_FILTERS[h64(['wf', case]) % len(CALLER_FILTERS)]    # both sides run under the same caller-side warnings action
+    try:
+        return _twin(ctx, Model, spec, scripts, opts, a, b, a_label, b_label, case)
+    finally:
+        CALLER_FILTER[0] = 'ignore'
+
+
+def _twin(ctx, Model, spec, scripts, opts, a, b, a_label, b_label, case):
     n = spec.n
     tol = 0.5      # size of the scripted moves (the solver's own `tol` is an option like any other)
     A = make(Model, spec, scripts, tol)
